@@ -32,7 +32,9 @@ import (
 	authtypes "github.com/cosmos/cosmos-sdk/x/auth/types"
 	banktypes "github.com/cosmos/cosmos-sdk/x/bank/types"
 	minttypes "github.com/cosmos/cosmos-sdk/x/mint/types"
+	"github.com/cosmos/cosmos-sdk/x/params"
 	paramstypes "github.com/cosmos/cosmos-sdk/x/params/types"
+	paramproposal "github.com/cosmos/cosmos-sdk/x/params/types/proposal"
 	stakingtypes "github.com/cosmos/cosmos-sdk/x/staking/types"
 
 	"github.com/sentinel-official/hub/v12/app"
@@ -287,15 +289,19 @@ func (e *Env) appRunTx(msg sdk.Msg) (res string, evs sdk.Events, errMsg string) 
 func (e *Env) appGov(changes []ParamChange) (res string, errMsg string) {
 	a := e.ap.app
 	ctx := a.NewContext(false, e.ap.header)
+	// the real x/params proposal handler on a ParameterChangeProposal, in a cache context as the gov end-blocker runs it
+	pcs := []paramproposal.ParamChange{}
 	for _, c := range changes {
-		ss, ok := a.ParamsKeeper.GetSubspace(c.Subspace)
-		if !ok {
-			panic("unknown subspace " + c.Subspace)
-		}
-		if err := ss.Update(ctx, []byte(c.Key), []byte(c.Value)); err != nil {
-			panic(fmt.Sprintf("param change %s/%s=%s rejected: %v", c.Subspace, c.Key, c.Value, err))
-		}
+		pcs = append(pcs, paramproposal.NewParamChange(c.Subspace, c.Key, c.Value))
 	}
+	content := paramproposal.NewParameterChangeProposal("t", "d", pcs)
+	handler := params.NewParamChangeProposalHandler(a.ParamsKeeper)
+	cctx, write := ctx.CacheContext()
+	if err := handler(cctx, content); err != nil {
+		e.ctx = a.NewContext(false, e.ap.header)
+		return ResRej, err.Error()
+	}
+	write()
 	e.ctx = a.NewContext(false, e.ap.header)
 	return ResOK, ""
 }
